@@ -1213,7 +1213,15 @@ func TestVerif_C09(t *testing.T) {
 	}
 	sb.WriteString("].\n")
 	sb.WriteString("Definition c09_route_mismatches := Eval vm_compute in mismatches (fun c : nat * N * list hstep * bool * list (N * N * bool) =>\n  let '(v, mode, prog, err, arts) := c in negb (route_case_ok (cfg_of v) mode prog err arts)) route_cases.\nPrint c09_route_mismatches.\n")
-	sb.WriteString("Definition c09_ncases := Eval vm_compute in (length seq_cases + length route_cases)%nat.\nPrint c09_ncases.\n")
+	// ------------------------------------------------------------ (e) the published keys over time (c09pub.go)
+	pubCoq, pubIdx := c09PublishedOverTime(t, res, rng)
+	sb.WriteString(pubCoq)
+	idx.WriteString(pubIdx)
+	// ------------------------------------------------------------ (f) the auto-unseal path against a fake cloud (c09aws.go)
+	autoCoq, autoIdx := c09AutoUnseal(t, res)
+	sb.WriteString(autoCoq)
+	idx.WriteString(autoIdx)
+	sb.WriteString("Definition c09_ncases := Eval vm_compute in (length seq_cases + length route_cases + length pub_cases + length auto_cases)%nat.\nPrint c09_ncases.\n")
 	if err := ioutil.WriteFile(filepath.Join(verifOut(), "CasesC09.v"), []byte(sb.String()), 0644); err != nil {
 		t.Fatal(err)
 	}
